@@ -28,3 +28,22 @@ Definition chk_wf (r : res zparr) (e : expect) : bool :=
 
 Definition show (r : res zparr) : option (obs ZR) + err :=
   match r with Ok p => inl (Some (observe p)) | Err e => inr e end.
+
+(* ---- ordered instance (comparisons, leading terms) ------------------------------------- *)
+From NP Require Import Order Compare.
+Definition ZO : realDomainType := [realDomainType of Z].
+
+Inductive bexpect := BOk of seq nat & seq bool | BErr of err.
+Definition chk_bool (r : res (seq nat * seq bool)) (e : bexpect) : bool :=
+  match r, e with
+  | Ok (s, v), BOk s' v' => (s == s') && (v == v')
+  | Err a, BErr b => err_eqb a b
+  | _, _ => false
+  end.
+
+Definition zcompare (code : cmp_code) (o : opts) (a b : zparr) := @pcompare ZO code o a b.
+Definition zequal (o : opts) (a b : zparr) := @pequal ZO o a b.
+Definition znot_equal (o : opts) (a b : zparr) := @pnot_equal ZO o a b.
+Definition zselect (code : cmp_code) (o : opts) (a b : zparr) : res zparr := @pselect ZO code o a b.
+Definition zlead_exponent g r (p : zparr) := @lead_exponent ZO g r p.
+Definition zlead_coefficient g r (p : zparr) : seq Z := @lead_coefficient ZO g r p.
